@@ -20,6 +20,13 @@ EXPLANATION = (
 ASSUMPTIONS = ["decodeLength is a correct decoder of the remaining-length field (C01)"]
 
 
+def is_text(t):
+    """A message for the log: a string constant or a %-format of one (not packet data handed on)."""
+    if is_const(t):
+        return isinstance(t[1], str)
+    return isinstance(t, tuple) and t[0] == "binop" and t[1] == "Mod" and is_const(t[2]) and isinstance(t[2][1], str)
+
+
 def leaves_of_sum(t):
     if isinstance(t, tuple) and t[0] == "binop" and t[1] == "Add":
         return leaves_of_sum(t[2]) + leaves_of_sum(t[3])
@@ -232,7 +239,7 @@ def check(ctx):
             # F7
             depth = len(D.stack) + 1
             inner_calls = [e for e in bp.walk() if e.kind == "CALL" and len(e.stack) == depth and e.stack[:len(D.stack)] == D.stack and e.a["recv"] == SELF
-                           and inside(e, D)]
+                           and inside(e, D) and not all(is_text(x) for x in e.a["args"])]
             ctx.ob("F7", "%s dispatcher hands the whole packet to at most one handler" % cq,
                    len(inner_calls) <= 1 and all(x.a["args"] == (sl,) for x in inner_calls), where=where(inner_calls[0]) if inner_calls else where(D),
                    function=D.a["func"], construct="%s/handler-arg" % D.a["func"],
@@ -352,7 +359,8 @@ def offset_idiom(ctx, cls, cq, prog, p0, ent, outer, B, carry, framer_q, framer,
         ctx.ob("F3", "%s width scan tests the continuation bit decodeLength uses" % cq, bool(masks) and masks <= cont and bool(cont), where=where(D),
                function=framer_q, construct="%s/continuation-mask" % framer_q, msg="the framer scans with mask %s, decodeLength continues on %s" % (sorted(masks), sorted(cont)))
         depth = len(D.stack) + 1
-        inner_calls = [e for e in bp.walk() if e.kind == "CALL" and len(e.stack) == depth and e.stack[:len(D.stack)] == D.stack and e.a["recv"] == SELF]
+        inner_calls = [e for e in bp.walk() if e.kind == "CALL" and len(e.stack) == depth and e.stack[:len(D.stack)] == D.stack and e.a["recv"] == SELF
+                       and not all(is_text(x) for x in e.a["args"])]
         ctx.ob("F7", "%s dispatcher hands the whole packet to at most one handler" % cq, len(inner_calls) <= 1 and all(x.a["args"] == (sl,) for x in inner_calls),
                where=where(inner_calls[0]) if inner_calls else where(D), function=D.a["func"], construct="%s/handler-arg" % D.a["func"],
                msg="handlers called with %s" % [[show(y) for y in x.a["args"]] for x in inner_calls])
